@@ -165,7 +165,9 @@ func sortStrings(a []string) {
 }
 
 // guarded runs f with panic recovery under a watchdog.
-func guarded(f func() (string, error)) (res RenderResult) {
+func guarded(f func() (string, error)) (res RenderResult) { return guardedTimeout(10*time.Second, f) }
+
+func guardedTimeout(limit time.Duration, f func() (string, error)) (res RenderResult) {
 	done := make(chan RenderResult, 1)
 	start := time.Now()
 	go func() {
@@ -185,7 +187,7 @@ func guarded(f func() (string, error)) (res RenderResult) {
 	select {
 	case r := <-done:
 		return r
-	case <-time.After(10 * time.Second):
+	case <-time.After(limit):
 		return RenderResult{Class: "timeout", Duration: time.Since(start)}
 	}
 }
